@@ -19,7 +19,11 @@ use crate::report::{Ctx, Report};
 use crate::rpkigen::{Builder, CaSpec, Fault, Gen, Image, ObjSpec, PointFault, Stale, TalSpec, TreeSpec};
 use crate::util;
 
-fn tree(version: usize, n_roas: usize, bad: Option<(usize, Fault)>) -> TreeSpec {
+fn tree(version: usize, n_roas: usize, bad: Option<(usize, Fault)>) -> TreeSpec { tree_revoking(version, n_roas, bad, &[]) }
+
+/// `revoked`: serial numbers this version's CRL revokes (certificates of
+/// the stored version).
+fn tree_revoking(version: usize, n_roas: usize, bad: Option<(usize, Fault)>, revoked: &[u64]) -> TreeSpec {
     let mut ta = CaSpec::new("ta0", 0, "ta0.example", "repo");
     ta.v4 = vec![(Ipv4Addr::new(10, 0, 0, 0), 8)];
     ta.asns = vec![(64496, 64511)];
@@ -28,6 +32,7 @@ fn tree(version: usize, n_roas: usize, bad: Option<(usize, Fault)>) -> TreeSpec 
     ca.v4 = vec![(Ipv4Addr::new(10, 1, 0, 0), 16)];
     ca.asns = vec![(64500, 64505)];
     ca.mft_number = version as u64;
+    ca.extra_revoked = revoked.to_vec();
     ca.mft_this_update = -3600 + 600 * version as i64;
     for i in 0..n_roas {
         // VRPs of different versions are disjoint
@@ -98,13 +103,22 @@ pub struct CaseSpec {
     /// v2's ASPA and router certificate are processed after (instead of
     /// before) all other entries
     pub extras_last: bool,
+    /// v2's CRL revokes the certificates of all of v1's objects (v2's own
+    /// objects carry other serial numbers)
+    pub revokes_v1: bool,
 }
 
 pub fn run_case(gen: &Gen, dir: std::path::PathBuf, c: &CaseSpec) -> Result<String, (String, String)> {
     let now = Time::now();
     let h = hooks::hooks();
     let v1 = Builder::at(gen, Stale::Reject, now).build(&tree(1, 2, None));
-    let v2 = Builder::at(gen, Stale::Reject, now).build(&tree(2, c.n, c.bad));
+    let v1_serials: Vec<u64> = if c.revokes_v1 {
+        v1.ee_serials.iter().filter(|(k, _)| k.starts_with("ca1/")).map(|(_, s)| *s).collect()
+    } else { Vec::new() };
+    // v2's own certificates must not collide with the revoked serials
+    let mut b2 = Builder::at(gen, Stale::Reject, now);
+    if c.revokes_v1 { b2.skip_serials(1000); }
+    let v2 = b2.build(&tree_revoking(2, c.n, c.bad, &v1_serials));
     let case = Case::new(dir);
     case.write_tals(&v1);
     let config = case.config();
@@ -174,11 +188,23 @@ pub fn cases(thorough: bool) -> Vec<CaseSpec> {
     for n in 1..=max_n {
         let perms = permutations(n + 1);
         for order in &perms {
-            res.push(CaseSpec { n, bad: None, order: order.clone(), third: false, extras_last: false });
+            res.push(CaseSpec { n, bad: None, order: order.clone(), third: false, extras_last: false, revokes_v1: false });
             for b in 0..=n {
                 for f in [Fault::Missing, Fault::HashMismatch] {
-                    res.push(CaseSpec { n, bad: Some((b, f)), order: order.clone(), third: false, extras_last: false });
+                    res.push(CaseSpec { n, bad: Some((b, f)), order: order.clone(), third: false, extras_last: false, revokes_v1: false });
                 }
+            }
+        }
+    }
+    // the fetched CRL revokes what is stored: only the stored CRL may be
+    // applied to the stored objects
+    {
+        let n = res.len();
+        for i in 0..n {
+            if res[i].bad.is_some() && (thorough || res[i].n == 1) {
+                let mut c = res[i].clone();
+                c.revokes_v1 = true;
+                res.push(c);
             }
         }
     }
@@ -193,7 +219,7 @@ pub fn cases(thorough: bool) -> Vec<CaseSpec> {
         }
         for order in permutations(3) {
             for b in 0..=2 {
-                res.push(CaseSpec { n: 2, bad: Some((b, Fault::Missing)), order: order.clone(), third: true, extras_last: false });
+                res.push(CaseSpec { n: 2, bad: Some((b, Fault::Missing)), order: order.clone(), third: true, extras_last: false, revokes_v1: false });
             }
         }
     }
@@ -222,7 +248,8 @@ pub fn run(ctx: &Ctx) -> Report {
         one entry (every choice, incl. the CRL) missing or hash-mismatching, \
         or none (control); every one of the (n+1)! processing orders of the \
         manifest entries imposed through the order hook; thorough adds n=3 \
-        and three-version histories; oracle: CA payload of run 2 == exactly \
+        and three-version histories; abandoned cases also with a v2 CRL that \
+        revokes the certificates of all stored v1 objects; oracle: CA payload of run 2 == exactly \
         payload(v1) (or payload(v2) for the control); non-trivial = cases \
         with a bad entry".into();
     rep.bound = format!("{} (order, bad entry, fault) cases, n <= {}", cases.len(), if ctx.tier.thorough() { 3 } else { 2 });
@@ -238,7 +265,7 @@ pub fn run(ctx: &Ctx) -> Report {
             Err((class, msg)) => {
                 rep.outcome(format!("VIOLATION:{class}"));
                 rep.violation(fingerprint(c, &class), msg,
-                    json!({"n": c.n, "bad": c.bad.map(|(b, f)| json!([b, format!("{f:?}")])), "order": c.order, "third": c.third, "extras_last": c.extras_last}));
+                    json!({"n": c.n, "bad": c.bad.map(|(b, f)| json!([b, format!("{f:?}")])), "order": c.order, "third": c.third, "extras_last": c.extras_last, "revokes_v1": c.revokes_v1}));
             }
         }
     }
@@ -263,6 +290,7 @@ pub fn replay(ctx: &Ctx, v: &Value) -> Report {
         order: v["order"].as_array().unwrap().iter().map(|x| x.as_u64().unwrap() as usize).collect(),
         third: v["third"].as_bool().unwrap_or(false),
         extras_last: v["extras_last"].as_bool().unwrap_or(false),
+        revokes_v1: v["revokes_v1"].as_bool().unwrap_or(false),
     };
     let r = run_case(&gen, ctx.scratch.join("replay"), &c);
     println!("{c:?}: {r:?}");
